@@ -339,6 +339,8 @@ type c16Env struct {
 	// tokens that are part of the fixture
 	victimJTI string // a live admin token: target of DELETE /auth/keys/{id}
 	victimTok string
+	deadJTI   string            // a token revoked as part of the fixture (its marker exists from the start)
+	deadTok   string
 	revoked   map[string]string // jti -> token, re-applied on every rebuild
 }
 
@@ -481,6 +483,14 @@ func (e *c16Env) fixture() error {
 			return err
 		}
 		e.victimTok, e.victimJTI = tok, pol.ID
+	}
+	if e.deadTok == "" {
+		tok, pol, err := e.srv.keyManager.GenerateKey("fixture revoked", "read", []string{"*"})
+		if err != nil {
+			return err
+		}
+		e.deadTok, e.deadJTI = tok, pol.ID
+		e.revoked[pol.ID] = tok
 	}
 	// ... and every token revoked so far
 	jtis := make([]string, 0, len(e.revoked))
@@ -733,8 +743,20 @@ func c16Escape(seg, enc string) string {
 	return url.PathEscape(seg)
 }
 
+// c16KeySubst resolves the placeholders for KV keys that depend on ids minted per process.
+func c16KeySubst(key, victimJTI, deadJTI string) string {
+	switch key {
+	case "$VICTIM_MARKER":
+		return "_sys_auth::revoked::" + victimJTI
+	case "$REVOKED_MARKER":
+		return "_sys_auth::revoked::" + deadJTI
+	}
+	return key
+}
+
 // c16Path instantiates a pattern.
 func c16Path(r c16Route, idx, key, victim, enc string) string {
+	key = c16KeySubst(key, victim, "")
 	segs := strings.Split(r.Pattern, "/")
 	for i, s := range segs {
 		if strings.HasPrefix(s, "{") && strings.HasSuffix(s, "}") {
